@@ -56,3 +56,23 @@ Example C09_nonvacuous :
   as_integer_ratio release (mkdec (- (2 ^ 126)) 18) = Val (- (2 ^ 108), 5 ^ 18) /\
   hash_feed dev (mkdec 34 1) = hash_feed dev (mkdec 3400 3).
 Proof. vm_compute. repeat split. Qed.
+
+(* ---- src/as_integer_ratio.rs as translated from /repo's current source (gen/GenDec.v): the binary gcd and the reduced
+   fraction; impl Hash for Decimal feeds exactly this pair to the hasher (the generic fn hash itself is not translated) ---- *)
+From FP Require Import GenDec GenTieDecRatio.
+
+Theorem C09_source_gcd_special :
+  forall pf c e, c <> 0 -> - MAXC <= c <= MAXC -> 0 <= e <= 18 ->
+    g_gcd_special pf c e = Val (Z.gcd c (10 ^ e)).
+Proof. exact src_gcd_special. Qed.
+Check C09_source_gcd_special :
+  forall pf c e, c <> 0 -> - MAXC <= c <= MAXC -> 0 <= e <= 18 ->
+    g_gcd_special pf c e = Val (Z.gcd c (10 ^ e)).
+Print Assumptions C09_source_gcd_special.
+
+Theorem C09_source_ratio_equals_spec :
+  forall pf d, wf d = true -> g_AsIntegerRatio_as_integer_ratio pf d = Val (ratio_spec d).
+Proof. exact src_ratio_equals_spec. Qed.
+Check C09_source_ratio_equals_spec :
+  forall pf d, wf d = true -> g_AsIntegerRatio_as_integer_ratio pf d = Val (ratio_spec d).
+Print Assumptions C09_source_ratio_equals_spec.
